@@ -853,7 +853,7 @@ def body(ctx):
             vector_case(spec, resolve(seq), f"exhaustive{si + 1}")
 
     # ---- (ii) random vectors x random sequences
-    for _ in range(ctx.scale(500, 5000)):
+    for _ in range(ctx.scale(500, 4000)):
         spec = gen_spec(rng)
         ops, n = [], 1
         for _ in range(rng.choice([3, 10, 40, 40])):
@@ -870,7 +870,7 @@ def body(ctx):
 
     # ---- (iv) transforms
     tcases = []
-    ninter = ctx.scale(40, 2000)
+    ninter = ctx.scale(40, 1500)
     inputs = [np.array([0.1, 0.5, 2.0]), 0.3, np.array([-1.0, 0.0, 1.5, 30.0]), np.array([[0.2, 0.1]]), 7.0]
     for clsname in transform.__all__:
         if clsname not in TCTOR:
